@@ -129,7 +129,9 @@ func (m *NonInterference) AfterScan(ctx *h.ScanCtx) []h.Violation {
 			}
 			// a cloud group that began the scan at (or below) its minimum refuses every removal with an
 			// ordinary error before it looks at membership; the fatal stop cannot come from it
-			if g := ctx.GroupOfASG(nn.NodeGroup); g != nil && g.CloudDesired <= g.CloudMin {
+			// (judged on the cloud group as the scan's refresh reported it: not when that refresh's answer
+			// left the group out and the provider went on with what it had cached)
+			if g := ctx.GroupOfASG(nn.NodeGroup); g != nil && g.CloudDesired <= g.CloudMin && !ctx.H.SlotFlags["describe-omits:"+nn.NodeGroup] {
 				return []h.Violation{{Prop: "C12", Sig: "C12/failure-not-contained/minimum-refusal-became-fatal",
 					Msg: fmt.Sprintf("scan %d: cloud group %s began the scan with desired %d <= minimum %d, so its removal request is refused with the ordinary minimum-size error; instead the scan stopped with %q and later groups were not processed", ctx.Scan, nn.NodeGroup, g.CloudDesired, g.CloudMin, err.Error())}}
 			}
@@ -211,6 +213,7 @@ func C12Scenarios(tier string) []*h.Scenario {
 					as.Min = as.Desired
 				}
 			}})
+			ev = append(ev, evDescribeOmits(a.ASG.Name))
 			ev = append(ev, h.Event{Label: "burst(a, affinity NotIn b)", Apply: func(hh *h.Hist) {
 				for i := 0; i < 3; i++ {
 					o := affinityPod(other, "", 1500, true)
@@ -389,6 +392,6 @@ func init() {
 		},
 		Nontrivial:  seenKeys,
 		Assumptions: append([]string{"group a scales with SetDesiredCapacity (zero virtual time); a fleet attach in a takes 1-3 virtual seconds, which legitimately moves b's reaper clock and is not interference"}, commonAssumptions...),
-		Alphabet:    []string{"pod-start/finish(a.i)", "cordon(a.i)", "force-taint(a.i)", "ext-taint(a.i, now-5q)", "burst(a)", "clear-pods(a)", "ec2-describe-instances-down", "register-node(a, odd size)", "resize-first-node(a)", "lingering-node(a)+asg-at-minimum", "fail at any k8s/AWS call or lister while a is processed"},
+		Alphabet:    []string{"pod-start/finish(a.i)", "cordon(a.i)", "force-taint(a.i)", "ext-taint(a.i, now-5q)", "burst(a)", "clear-pods(a)", "ec2-describe-instances-down", "register-node(a, odd size)", "resize-first-node(a)", "lingering-node(a)+asg-at-minimum", "describe-answers-without(asg of a)", "fail at any k8s/AWS call or lister while a is processed"},
 	})
 }
